@@ -148,19 +148,27 @@ def argsM (g : Globals) : List Expr → List EvalM
   | e :: es => exprM g e :: argsM g es
 end
 
+/-- the annotation of a `let`, when present, differs from the initialiser's type -/
+def letTypeBad (ann : Option ATy) (t : Ty) : Bool :=
+  match ann with
+  | some a => decide (t ≠ a.toTy)
+  | none => false
+
+/-- the internal name of a new `let`: probe from the source name when no value of that name is
+visible, otherwise from the visible value's internal name -/
+def letInnerName (s : St) (name : Name) : Name :=
+  match s.lookupValue name with
+  | none => s.probeInner name
+  | some val => s.probeInner val.innerName
+
 /-- `let_binding` -/
 def letBinding (g : Globals) (b : LetB) (s : St) : St :=
   match exprM g b.value s with
   | (none, s) => s
   | (some r, s) =>
-    let bad := match b.ty with
-      | some t => decide (r.ty ≠ t.toTy)
-      | none => false
-    if bad then s.addErr .wrongLetType b.name 1 0
+    if letTypeBad b.ty r.ty then s.addErr .wrongLetType b.name 1 0
     else
-      let inner := match s.lookupValue b.name with
-        | none => s.probeInner b.name
-        | some val => s.probeInner val.innerName
+      let inner := letInnerName s b.name
       let value : Value := ⟨inner, r.ty, b.mutable, false, false⟩
       ((s.insertValue b.name value).registerInner inner).push (.letBinding value r)
 
